@@ -29,6 +29,8 @@ const (
 	lvSpokBefore         // regular spokfile + an earlier entry
 	lvDirSpok            // a directory named "spokfile"
 	lvDirSpokDeep        // directory "spokfile" holding a regular "spokfile", plus a later entry
+	lvCaseVariant        // a regular file "Spokfile" (different case): an ordinary other entry
+	lvCaseBoth           // "Spokfile" next to the real "spokfile"
 	nLevelCfg
 )
 
@@ -38,6 +40,9 @@ type FindCase struct {
 	Child []string `json:"child"` // name of the child directory of each level but the last ("d" sorts before spokfile, "t" after)
 	Start int      `json:"start"` // level index
 	Stop  int      `json:"stop"`  // level index, -1 = an unrelated sibling directory
+	// ViaSymlink (binary leg only): HOME and the working directory are spelled through a
+	// symbolic link that points at the stop directory
+	ViaSymlink bool `json:"via_symlink,omitempty"`
 }
 
 func (c FindCase) dirs(base string) []string {
@@ -79,6 +84,12 @@ func (c FindCase) build(base string) error {
 			}
 		case lvDirSpok:
 			err = os.Mkdir(filepath.Join(d, "spokfile"), 0o755)
+		case lvCaseVariant:
+			err = w(d, "Spokfile")
+		case lvCaseBoth:
+			if err = w(d, "Spokfile"); err == nil {
+				err = w(d, "spokfile")
+			}
 		case lvDirSpokDeep:
 			if err = os.Mkdir(filepath.Join(d, "spokfile"), 0o755); err == nil {
 				if err = w(filepath.Join(d, "spokfile"), "spokfile"); err == nil {
